@@ -227,6 +227,19 @@ func (fv *FuncVC) pkgPath() string {
 
 // modTargets: `modifies x` — x a slice (its backing array), a pointer (the cell), or a map.
 func (fv *FuncVC) modTargets(env *Env, m Expr) []modEntry {
+	if c, ok := m.(*ECall); ok && c.Fn == "when" && len(c.Args) == 2 {
+		// when(cond, x): x may be written only if cond holds (evaluated where the clause is: at entry / at the call)
+		cond := env.trBool(c.Args[0])
+		es := fv.modTargets(env, c.Args[1])
+		for i := range es {
+			if es[i].cond == "" {
+				es[i].cond = cond
+			} else {
+				es[i].cond = and(es[i].cond, cond)
+			}
+		}
+		return es
+	}
 	if c, ok := m.(*ECall); ok && c.Fn == "region" && len(c.Args) == 1 {
 		// region(x): everything allocated since x's owner was created (ids >= minid(x))
 		v := env.tr(c.Args[0])
